@@ -15,9 +15,12 @@ CONSTANTS
   ObsLast = FALSE
   Rand = FALSE
   Letters = {0, 1}
+  LastOps = {}
+  LastSz = {}
+  Dom = "all"
   Ops = {"dup", "splice", "split", "merge", "append", "insert", "delete", "truncate", "resize", "prepend", "poke", "free"}
-INVARIANT TypeOK ByteString FreshSingle WriteOnlySingle
-PROPERTY Isolation StructuralOpsDontWrite SharedNeverWritten ErrLeavesUnchanged
+INVARIANT TypeOK ByteString FreshSingle
+PROPERTY Isolation WriteOnlySingle StructuralOpsDontWrite SharedNeverWritten ErrLeavesUnchanged
 CONSTRAINT Bounded
 VIEW view
 CHECK_DEADLOCK FALSE
